@@ -195,7 +195,7 @@ pub fn base_cfgs(tier: &str, seed: u64) -> Vec<Cfg> {
     for preset in 0..3u8 { for kinetic in 0..2u8 { for method in 0..3u8 {
         idx += 1;
         if tier != "thorough" && (preset as u64 + kinetic as u64 + method as u64 + seed) % 3 != 0 { continue; }
-        out.push(Cfg { preset, kinetic, method, dim: 2 + ((idx + seed) % 3) as usize, num_tune: if tier == "thorough" { 40 } else { 24 }, num_draws: 6, seed: seed.wrapping_mul(1000) + idx, faults: vec![] });
+        out.push(Cfg { preset, kinetic, method, dim: 2 + ((idx + seed) % 3) as usize, num_tune: if tier == "thorough" { 120 } else { 24 }, num_draws: if tier == "thorough" { 20 } else { 6 }, seed: seed.wrapping_mul(1000) + idx, faults: vec![] });
     } } }
     // energy-error divergences: a fixed step size beyond the stability limit of the stiffest coordinate
     for preset in 0..2u8 { out.push(Cfg { preset, kinetic: 0, method: 3, dim: 3, num_tune: 10, num_draws: 6, seed: seed.wrapping_mul(77) + preset as u64, faults: vec![] }); }
@@ -219,7 +219,7 @@ pub fn main(tier: &str, seed: u64, outdir: &str) {
             check_run(&c, &out, &mut cases, &mut rep);
         } }
         // random pairs
-        let npairs = if tier == "thorough" { 1500 } else { 150 };
+        let npairs = if tier == "thorough" { 20000 } else { 150 };
         for _ in 0..npairs {
             let k1 = r.below(n); let span = if r.coin() { 6 } else { n }; let k2 = (k1 + 1 + r.below(span)).min(n + 5);
             let mut c = base.clone(); c.faults = vec![(k1, *r.pick(&ALL_FAULTS)), (k2, *r.pick(&ALL_FAULTS))];
